@@ -71,12 +71,13 @@ void h(void) { GlobalGraph g; mk_graph(&g); g.root_ = nondet_uint(); in_a = g.ro
 def generate_jobs(unit, tier):
     jobs = []
     bodies = [f['cname'] for f in FUNCS]
-    def add(op, suffix, nu, ne, extra='', what='', unwind=None, mem_gb=None):
-        jobs.append(dict(id='b_%s%s' % (op, suffix), kind='bounded', mode='bounded', entry='h', bodies=bodies, harness=H[op], unwind=unwind or 2 * max(nu, ne), timeout=3000,
+    def add(op, suffix, nu, ne, extra='', what='', unwind=None, mem_gb=None, flags=(), timeout=900):
+        jobs.append(dict(id='b_%s%s' % (op, suffix), kind='bounded', mode='bounded', entry='h', bodies=bodies, harness=H[op], unwind=unwind or max(nu, ne) + 2, timeout=timeout, cbmc_flags=list(flags),
                          mem_kb=(mem_gb * 1024 * 1024 if mem_gb else None),
-                         defs='#define NU %d\n#define NE %d\n#define VEC_BCAP 6\n#define MAP_MAXNU %d\n%s' % (nu, ne, max(nu, ne), extra),
+                         defs='#define NU %d\n#define NE %d\n#define VEC_BCAP %d\n#define MAP_MAXNU %d\n%s' % (nu, ne, max(nu, ne), max(nu, ne), extra),
                          bound='id universe: %d node ids, %d edge ids; arbitrary well-formed %sgraph' % (nu, ne, what or 'directed or undirected '),
                          doc='%s on an arbitrary well-formed graph' % op))
     for d, w in ((1, 'directed '), (0, 'undirected ')):
-        add('isTree', '_%s' % w[0], 3, 4, '#define FIX_DIRECTED %d\n' % d, w)
+        # recursion depth: every call inserts a new node or returns at once; the loop runs over at most NU neighbours
+        add('isTree', '_%s' % w[0], 3, 3, '#define FIX_DIRECTED %d\n' % d, w, mem_gb=28, flags=['--unwindset', 'GlobalGraph__nodesAreMetOnlyOnce_:4,GlobalGraph__nodesAreMetOnlyOnce_.0:3'])
     return jobs
